@@ -32,6 +32,7 @@ type Engine struct {
 	files     map[string]*ast.File       // by filename
 	src       map[string][]byte
 	typeCache map[string]types.Type
+	arrInvKeys map[string]bool
 }
 
 const repoMod = "github.com/tyler-sommer/stick"
@@ -101,6 +102,16 @@ func loadEngine(repo string, speclibDir string) (*Engine, error) {
 				return nil, err
 			}
 		}
+	}
+	// array element invariants: resolve element types to heap keys
+	e.arrInvKeys = map[string]bool{}
+	for k := range e.contracts.ArrayInv {
+		parts := strings.SplitN(k, "|", 2)
+		t, err := e.resolveType(parts[0], parts[1])
+		if err != nil {
+			return nil, err
+		}
+		e.arrInvKeys[e.u.arrKey(t)] = true
 	}
 	// functions implementing a functype inherit its clauses (checked against their own body)
 	for _, c := range e.contracts.Funcs {
